@@ -401,7 +401,10 @@ def evaluate(rc, stats):
                 return [Violation("C15|axis_type|reduce", f"{where}: axis={ax!r} is not a tuple of ints")]
             if len(set(ax)) != len(ax) or any(a < 0 or a >= x.ndim for a in ax):
                 return [Violation("C15|axis_range|reduce", f"{where}: axis={ax!r} for a tensor of rank {x.ndim}")]
-            if [x.shape[a] for a in ax] != blens:
+            sel = [x.shape[a] for a in ax]
+            # a composition that lies entirely inside brackets, "[(3 2)]", may reach the function as one axis of length 6:
+            # the selected axes must be the bracketed axes up to merging neighbours (same total extent, not more axes)
+            if sel != blens and not (int(np.prod(sel)) == int(np.prod(blens)) and len(sel) <= len(blens) and X.has_node(base["ins"][0], "flat")):
                 return [Violation("C15|axis_positions|reduce", f"{where}: axis={ax!r} selects lengths {[x.shape[a] for a in ax]} of shape {x.shape}, bracketed axes have lengths {blens}")]
         else:
             xs = call["args"]
